@@ -28,6 +28,29 @@ def setup():
     return w, I, table
 
 
+def nice_models(lang):
+    """preference for counter-models built from ordinary atoms/features/slashes (they replay on the real code)"""
+    def pref(inputs):
+        w = get_world()
+        nice = z3.RecFunction('nice_' + lang, w.Cat, z3.BoolSort()) if not hasattr(w, '_nice_' + lang) else getattr(w, '_nice_' + lang)
+        if not hasattr(w, '_nice_' + lang):
+            c = z3.Const('nice_c', w.Cat)
+            b = w.acc('Atom', 'base')(c)
+            f = w.acc('Atom', 'feature')(c)
+            if lang == 'en':
+                fs = [w.none_feat(), w.unary('X'), w.unary('dcl'), w.unary('nb'), w.unary('em')]
+            else:
+                T = lambda a, b_, c_: w.mk('TernaryFeature', kv1_0='mod', kv1_1=a, kv2_0='form', kv2_1=b_, kv3_0='fin', kv3_1=c_)
+                fs = [T('nm', 'base', 'f'), T('X1', 'X2', 'X3'), T('adn', 'base', 't'), T('adv', 'base', 'f')]
+            sl = w.acc('Functor', 'slash')(c)
+            z3.RecAddDefinition(nice, [c], z3.If(w.recog('Atom')(c),
+                                z3.And(z3.Or(*[b == z3.StringVal(n) for n in ('S', 'NP', 'N', 'PP', ',', 'conj')]), z3.Or(*[f == x for x in fs])),
+                                z3.And(z3.Or(sl == z3.StringVal('/'), sl == z3.StringVal('\\')), nice(w.acc('Functor', 'left')(c)), nice(w.acc('Functor', 'right')(c)))))
+            setattr(w, '_nice_' + lang, nice)
+        return [nice(v) for v in inputs.values() if z3.is_expr(v) and v.sort() == w.Cat]
+    return pref
+
+
 def combinator_names(I, rel=REL):
     m = I.load_module(rel[:-3].replace('/', '.'))
     cs = m.env.lookup('combinators')
@@ -38,6 +61,7 @@ def combinator_names(I, rel=REL):
 
 def run_job(kind, key, prop=PROP, rel=REL, lang=LANG):
     w, I, table = setup()
+    engine.PREFER[:] = [nice_models(lang)]
     if kind == 'sound':
         c = gc.Combinator(rel, key, lang)
         recs, npaths = verify_contract(I, c, prop)
